@@ -524,8 +524,72 @@ func (c *prCtx) stmts(list []ast.Stmt, rest string) string {
 		delete(c.locals, vv)
 		return fmt.Sprintf("(sep_map (%s) (fun %s => %s) %s) ++ %s", sep, vv, b, f.v, tail())
 	}
+	if fs, ok := list[0].(*ast.ForStmt); ok {
+		// for i := 0; i < len(X); i++ { v := X[i]; BODY }  =  for i, v := range X { BODY }
+		if r := indexLoopAsRange(fs); r != nil {
+			return c.stmts(append([]ast.Stmt{r}, list[1:]...), rest)
+		}
+	}
 	c.fail(list[0], "unsupported statement %T", list[0])
 	return ""
+}
+
+// indexLoopAsRange recognises the index loop over a slice whose body starts by binding
+// the element, and returns the range statement it is equivalent to (nil otherwise).
+func indexLoopAsRange(fs *ast.ForStmt) *ast.RangeStmt {
+	init, ok := fs.Init.(*ast.AssignStmt)
+	if !ok || init.Tok != token.DEFINE || len(init.Lhs) != 1 || len(init.Rhs) != 1 || exprString(init.Rhs[0]) != "0" {
+		return nil
+	}
+	iv := exprString(init.Lhs[0])
+	cond, ok := fs.Cond.(*ast.BinaryExpr)
+	if !ok || cond.Op != token.LSS || exprString(cond.X) != iv {
+		return nil
+	}
+	ln, ok := cond.Y.(*ast.CallExpr)
+	if !ok || exprString(ln.Fun) != "len" || len(ln.Args) != 1 {
+		return nil
+	}
+	post, ok := fs.Post.(*ast.IncDecStmt)
+	if !ok || post.Tok != token.INC || exprString(post.X) != iv {
+		return nil
+	}
+	if len(fs.Body.List) == 0 {
+		return nil
+	}
+	bind, ok := fs.Body.List[0].(*ast.AssignStmt)
+	if !ok || bind.Tok != token.DEFINE || len(bind.Lhs) != 1 || len(bind.Rhs) != 1 {
+		return nil
+	}
+	ix, ok := bind.Rhs[0].(*ast.IndexExpr)
+	if !ok || exprString(ix.X) != exprString(ln.Args[0]) || exprString(ix.Index) != iv {
+		return nil
+	}
+	for _, st := range fs.Body.List[1:] {
+		bad := false
+		ast.Inspect(st, func(n ast.Node) bool {
+			switch t := n.(type) {
+			case *ast.AssignStmt:
+				for _, l := range t.Lhs {
+					if exprString(l) == iv {
+						bad = true
+					}
+				}
+			case *ast.IncDecStmt:
+				if exprString(t.X) == iv {
+					bad = true
+				}
+			case *ast.BranchStmt:
+				bad = true
+			}
+			return true
+		})
+		if bad {
+			return nil
+		}
+	}
+	return &ast.RangeStmt{Key: init.Lhs[0], Value: bind.Lhs[0], Tok: token.DEFINE, X: ln.Args[0],
+		Body: &ast.BlockStmt{List: fs.Body.List[1:]}, For: fs.For}
 }
 
 func (n *nodeInfo) pattern() string {
